@@ -22,7 +22,8 @@ RULE = ('Exhaustive: every text of length n over {a, ", comma, LF, CR, #, space}
         'UTF-8 / latin-1 samples (2-, 3-, 4-byte characters, BOM, CRLF; <= 18 bytes) through io.TextIOWrapper over a raw stream with short reads. '
         'Hypothesis: long random texts with random cut sets and chunk sizes. Oracle: (records, header, warnings, error) of every delivery == whole-string '
         'delivery == reference line breaker + reference splitter. Non-trivial = a cut inside a CRLF pair, directly after a CR, inside a multi-byte '
-        'character or inside a quoted field; enumerated deliveries are distinct by construction.')
+        'character or inside a quoted field; enumerated deliveries are distinct by construction.'
+        ' Later additions: deterministic big inputs (30000 short rows, 6000-character lines read at chunk sizes 1-3, a 2500-line record, 4000-field records, tokens straddling 1024*k and 8192, pieces of mixed sizes, real files), long CRLF lines with a read ending between CR and LF.')
 ASSUMPTIONS = ['the harness stream never returns more than requested and never returns an empty string before the end',
                'record numbers in warnings count the header line when a header is in force (as the property states)']
 
